@@ -81,6 +81,8 @@ func main() {
 			}
 		}
 	}
+	// deterministic 64-bit boundary lattice (refund / add-stake / UNSTAKE amounts) before anything random
+	latticeFamily(runS, true)
 	st := newGenStats()
 	episodes := 60
 	if thorough {
